@@ -92,3 +92,15 @@ Proof.
   split; [discriminate|]. split; [reflexivity|]. split; [exact ex_reach|].
   split; [vm_compute; reflexivity|]. split; vm_compute; reflexivity.
 Qed.
+
+From CppcmsV Require Import C20.MapAbs.
+Lemma ex_names_ok : Forall name_ok (map snd ex_up).
+Proof. repeat constructor. Qed.
+Lemma ex_chain_mid : chain ex_root ex_mid [(build ex_root, [99])] ([] ++ [47; 99]).
+Proof. exact (ChainSub ex_root ex_root [] [] 0%nat ([99], [47; 99], ex_mid) (ChainRoot ex_root) eq_refl). Qed.
+(* the absolute key /c/d/q used on the mapper of the middle node *)
+Example map_dispatch_abs_instance :
+  abs_key ex_up (page_key ex_page) = [47; 99; 47; 100; 47; 113] /\
+  real_map (build ex_mid, [(build ex_root, [99])]) [] (abs_key ex_up (page_key ex_page)) ex_ps = Ok ex_url /\
+  map_at (build ex_root) [] [0%nat] [47; 99; 47; 100; 47; 113] ex_ps = Ok ex_url.
+Proof. vm_compute. repeat split; reflexivity. Qed.
